@@ -44,7 +44,7 @@ UNIVERSE = [
 def gen_unit(rng):
     n = rng.choice((0, 1, 2, 3, 5, 8, 13, 21, 40))
     pool = rng.sample(UNIVERSE, rng.choice((2, 3, 5, 8, len(UNIVERSE))))
-    mode = rng.choice(["plain", "plain", "select1", "select2", "wrapped", "computed", "dupname"])
+    mode = rng.choice(["plain", "plain", "select1", "select2", "wrapped", "computed", "dupname", "sorted"])
     if mode == "computed":
         # the selected value is computed: results that print alike (10 from 10.3 and from 10) are duplicates
         nums = ["10.3", "10", "10.4", "-2.5", "-3", "6.5", "7", "7.0", "10.6", "11", "0", "0.4", "-0.4", "1e1", "2.5", "3", "-3.0", "6", "1e15", "999999999999999.6"]
@@ -68,6 +68,11 @@ def gen_unit(rng):
             items.append('{"x":%s,"z":%d}' % (a[0], rng.randint(0, 1000)) if rng.random() < 0.85 else '{"z":%d}' % rng.randint(0, 1000))
         else:
             items.append(rng.choice(pool)[0])
+    if mode == "sorted":
+        # a sort in front of the output with few distinct keys: equal rows end up in one bucket, usually NOT next to each other
+        items = [rng.choice(pool)[0] for _ in range(n)]
+        key = rng.choice(["(array? .)", "(string? .)", "1", "(number? .)", "(object? .)", "(size (stringify .))", "(null? .)"])
+        return {"input": rng.choice(["\n", " ", "\n\n"]).join(items).encode("utf-8"), "args": ["--sort-by", key + rng.choice(["", " DESC"])], "mode": mode}
     args = {"plain": [], "select1": ["--select", ".x=x"], "select2": ["--select", ".x=x", "--select", ".y=y"], "dupname": [],
             "wrapped": ["--select", "(push [] .x)=w"]}[mode]
     return {"input": rng.choice(["\n", " ", "\n\n"]).join(items).encode("utf-8"), "args": args, "mode": mode}
